@@ -105,6 +105,16 @@ def damage_ops(rng, ps, fs):
         nfs = dict(fs); nfs[p] = d + L.gen_content(rng, "random", rng.choice([1, S, S + 3])); put("append:" + n, nfs)
         if d.endswith(b"\0") and len(d.rstrip(b"\0")) > 0:
             nfs = dict(fs); nfs[p] = d.rstrip(b"\0"); put("striptrailingzeros:" + n, nfs)
+        if S >= 8 and len(d) >= 8:
+            # a multiple of the CRC-32 polynomial xor-ed into one slice: its CRC-32 is unchanged, only the MD5 differs
+            k0 = S * rng.randrange((len(d) - 5) // S + 1) if len(d) >= S else 0
+            room = min(S, len(d) - k0) - 5
+            if room >= 0:
+                off = k0 + rng.randrange(room + 1)
+                nd = bytearray(d)
+                for i_, x_ in enumerate(b"\x41\x06\x71\xdb\x01"):
+                    nd[off + i_] ^= x_
+                nfs = dict(fs); nfs[p] = bytes(nd); put("crckeep:%s@%d" % (n, off), nfs)
         nfs = dict(fs); nfs[p] = b""; put("empty:" + n, nfs)
     if len(names) >= 2:
         a, b = rng.sample(names, 2)
